@@ -149,7 +149,7 @@ fn shape_candidates(sc: &Scenario) -> Vec<Scenario> {
                     s
                 }
                 OpKind::Events { meta, take: Some(_) } => vec![OpKind::Events { meta: *meta, take: None }],
-                OpKind::ScaleConvert { .. } | OpKind::Render { .. } | OpKind::BuildAst => vec![OpKind::Parse { via: Via::Direct, cb: None, truncate: None }],
+                OpKind::ScaleConvert { .. } | OpKind::Render { .. } | OpKind::BuildAst | OpKind::ParseFree => vec![OpKind::Parse { via: Via::Direct, cb: None, truncate: None }],
                 _ => vec![],
             };
             for k in simpler {
